@@ -18,6 +18,7 @@ import (
 	"pgregory.net/rapid"
 
 	"verif/ev"
+	"verif/fx"
 )
 
 func TestMain(m *testing.M) {
@@ -46,6 +47,10 @@ type Req struct {
 	// Method: "" = GET; HEAD and POST are requests like any other to the handler (through a real
 	// server the client sees no body for HEAD).
 	Method string `json:"method,omitempty"`
+	// Wrap: the component is rendered inside a generated template that adds no markup of its own:
+	// gen (@c), flush (@templ.Flush() { @c }), children (as the block of another template), once
+	// (inside a once handle's block), deep (all of them nested), join (templ.Join). "" = directly.
+	Wrap string `json:"wrap,omitempty"`
 }
 
 type cancelKeyT struct{}
@@ -65,7 +70,7 @@ type Case struct {
 
 var rec = ev.New("C11", "c11.handler",
 	"histories of 1..12 requests against templ.Handler (and renders through templ.ToGoHTML, which shares its buffer pool) with generated configuration (status unset/200/201/404/500, content type, error handler none / header+body / body only / nothing / status only, streaming on/off) and a component that writes k chunks "+
-		"(0..64KiB, alphabet disjoint from every error text) then fails or not, for GET, HEAD and POST requests - in a quarter of the requests with the request's context cancelled at that moment, as a timeout middleware does -, via httptest.ResponseRecorder and via a real loopback net/http server; buffered oracle: success => configured status+content type+exact document; failure => exactly the default 500 message or exactly the error handler's response, no document byte, "+
+		"(0..64KiB, alphabet disjoint from every error text) then fails or not - handed to the handler directly or inside generated templates that add no markup (plain call, templ.Flush block, children block, once block, all nested, templ.Join) -, for GET, HEAD and POST requests - in a quarter of the requests with the request's context cancelled at that moment, as a timeout middleware does -, via httptest.ResponseRecorder and via a real loopback net/http server; buffered oracle: success => configured status+content type+exact document; failure => exactly the default 500 message or exactly the error handler's response, no document byte, "+
 		"never the configured success status. Non-trivial = failure after >=1 chunk, or a success following a failure in the same history; distinct by request configuration + position")
 
 var errCause = errors.New("component failed deliberately")
@@ -101,8 +106,27 @@ func component(r Req) templ.Component {
 
 const ehBody = "handled-error-body"
 
+func wrapped(r Req) templ.Component {
+	c := component(r)
+	switch r.Wrap {
+	case "gen":
+		return fx.WrapGen(c)
+	case "flush":
+		return fx.WrapFlush(c)
+	case "children":
+		return fx.WrapChildren(c)
+	case "once":
+		return fx.WrapOnce(c)
+	case "deep":
+		return fx.WrapDeep(c)
+	case "join":
+		return templ.Join(c)
+	}
+	return c
+}
+
 func handler(r Req, sawErr *error) http.Handler {
-	return handlerFor(r, component(r), sawErr)
+	return handlerFor(r, wrapped(r), sawErr)
 }
 
 func handlerFor(r Req, comp templ.Component, sawErr *error) http.Handler {
@@ -164,7 +188,7 @@ func do(r Req, sawErr *error) (out resp, err error) {
 		}
 	}()
 	if r.ToGoHTML {
-		html, err := templ.ToGoHTML(context.Background(), component(r))
+		html, err := templ.ToGoHTML(context.Background(), wrapped(r))
 		if err != nil {
 			*sawErr = err
 			return resp{code: 500, body: defaultMsg}, nil
@@ -369,6 +393,7 @@ var genReq = rapid.Custom(func(t *rapid.T) Req {
 	r.CtxDone = !r.ToGoHTML && rapid.IntRange(0, 3).Draw(t, "ctxDone") == 0
 	if !r.ToGoHTML {
 		r.Method = rapid.SampledFrom([]string{"", "", "", "HEAD", "HEAD", "POST"}).Draw(t, "method")
+		r.Wrap = rapid.SampledFrom([]string{"", "", "gen", "flush", "flush", "children", "once", "deep", "join"}).Draw(t, "wrap")
 	}
 	return r
 })
